@@ -4,9 +4,8 @@ C03 for chains of several stages: the chain as a pipeline of stages.
 `runG items ps fin` = feed the pieces `ps` through `do_filter`, then `do_end` started with `fin`.
 `runG_cons` (transposition): the run of `st :: rest` is the run of `rest` on the NON-EMPTY outputs of `st` (the `break` of
 `do_filter`), `do_end` started with what `st` emits at end (its `filter(fin) ++ end()` as ONE piece).
-Each stage is chunk-invariant on the pieces it actually receives when they are safe for it (`SafeRun` for an html
-stage, nothing for a text stage), hence two runs of the same chain on the same stream agree when every stage is safe on
-its pieces in both runs (`SafeG`).
+Each stage is chunk-invariant on whatever pieces it receives (html stage: `seqRun_total`, from the restart law with a
+context; text stage: closed form), hence two runs of the same chain of fresh stages on the same stream agree.
 -/
 import RioModel.Proofs.FilterTotal
 import RioModel.Proofs.FilterText
@@ -261,10 +260,11 @@ theorem seqRun_append : ∀ (xs ys : List Bytes) (s : HtmlSt),
         | some r3 => simp [List.append_assoc]
 
 
-/-- the pieces a stage receives are safe for it -/
-def StageSafe : Stage D E → List Bytes → Prop
-  | .html s, pieces => SafeRun tk ev s pieces
-  | _, _ => True
+/-- a stage as `FilterBodyAction::new` builds it: nothing held, an accepted context, and the stream tokenizer makes no
+token out of nothing -/
+def StageInit : Stage D E → Prop
+  | .html s => Ctx s.ctx ∧ s.last = [] ∧ (tk.stream s.ctx []).1 = []
+  | _ => True
 
 /-- what a plain stage makes of the whole stream `b` delivered as one piece followed by `end()` -/
 def stOne : Stage D E → Bytes → Option Bytes
@@ -363,19 +363,30 @@ theorem stTotal_text (s : TextSt) (ps : List Bytes) (fin : Option Bytes) :
     simp only [List.append_nil] at this
     rw [this, stageTotal_end]
 
-/-- **A stage is chunk-invariant on safe pieces**: whatever the (non-empty list of) pieces, if they are safe for the
-stage its total output is what it emits for the concatenated stream delivered as one piece. -/
-theorem stage_sci (st : Stage D E) (hp : isPlain st = true) (ps : List Bytes) (fin : Option Bytes)
-    (hne : ps ++ fin.toList ≠ []) (hsafe : StageSafe tk ev st (ps ++ fin.toList)) (out : Bytes)
+/-- **A stage is chunk-invariant**: whatever the pieces (none at all included), the total output of a fresh stage is
+what it emits for the concatenated stream delivered as one piece. -/
+theorem stage_sci (hl : LosslessS tk) (hr : RestartLaw tk) (st : Stage D E) (hp : isPlain st = true)
+    (hinit : StageInit tk st) (ps : List Bytes) (fin : Option Bytes) (out : Bytes)
     (h : stTotal tk ev codec st ps fin = some out) :
     stOne tk ev st (ps.flatten ++ fin.getD []) = some out := by
   cases st with
   | html s =>
-    obtain ⟨s', o, h1, h2⟩ := stTotal_html tk ev codec s ps fin out h
-    have := seqRun_total tk ev (ps ++ fin.toList) s s' o hne hsafe h1
-    simp only [List.flatten_append, toList_flatten] at this
-    simp only [stOne]
-    rw [this, h2]
+    obtain ⟨hc, hlast, hnil⟩ := hinit
+    by_cases hne : ps ++ fin.toList = []
+    · simp only [List.append_eq_nil_iff] at hne
+      obtain ⟨rfl, hfin⟩ := hne
+      cases fin with
+      | some d => simp at hfin
+      | none =>
+        simp only [stTotal, stFeed, Stage.endWith, Stage.end] at h
+        injection h with h
+        subst h
+        simpa [stOne] using htmlTotal_nil tk ev hl s hlast hnil
+    · obtain ⟨s', o, h1, h2⟩ := stTotal_html tk ev codec s ps fin out h
+      have := seqRun_total tk ev hr (ps ++ fin.toList) s s' o hne hc h1
+      simp only [List.flatten_append, toList_flatten] at this
+      simp only [stOne]
+      rw [this, h2]
   | text s =>
     rw [stTotal_text] at h
     simpa [stOne] using h
@@ -384,147 +395,55 @@ theorem stage_sci (st : Stage D E) (hp : isPlain st = true) (ps : List Bytes) (f
 
 /-! ### two runs of the same chain on the same stream -/
 
-/-- every stage is safe on the pieces it actually receives in the run -/
-def SafeG : List (Stage D E) → List Bytes → Option Bytes → Prop
-  | [], _, _ => True
-  | st :: rest, ps, fin =>
-    StageSafe tk ev st (ps ++ fin.toList) ∧
-      match stFeed tk ev codec st ps with
-      | none => True
-      | some (st1, os) =>
-        match st1.endWith tk ev codec fin with
-        | (_, none) => True
-        | (_, some nd) => SafeG rest (nonEmpty os) (optB nd)
-
-/-- both runs deliver something to the stage, or neither does -/
-def SameShape (ps : List Bytes) (fin : Option Bytes) (ps' : List Bytes) (fin' : Option Bytes) : Prop :=
-  (ps ++ fin.toList ≠ [] ∧ ps' ++ fin'.toList ≠ []) ∨ (ps = [] ∧ fin = none ∧ ps' = [] ∧ fin' = none)
-
 theorem optB_toList_flatten (b : Bytes) : (optB b).toList.flatten = b := by
   rw [toList_flatten, optB_getD]
 
-theorem nonEmpty_nil_of_flatten {os : List Bytes} (h : os.flatten = []) : nonEmpty os = [] := by
-  induction os with
-  | nil => rfl
-  | cons o os ih =>
-    simp only [List.flatten_cons, List.append_eq_nil_iff] at h
-    simp only [nonEmpty, List.filter, h.1, List.isEmpty_nil, Bool.not_true]
-    exact ih h.2
-
-theorem sameShape_next (os os' : List Bytes) (nd nd' : Bytes) (h : os.flatten ++ nd = os'.flatten ++ nd') :
-    SameShape (nonEmpty os) (optB nd) (nonEmpty os') (optB nd') := by
-  by_cases hz : os.flatten ++ nd = []
-  · right
-    have hz' : os'.flatten ++ nd' = [] := by rw [← h]; exact hz
-    simp only [List.append_eq_nil_iff] at hz hz'
-    refine ⟨nonEmpty_nil_of_flatten hz.1, by simp [optB, hz.2], nonEmpty_nil_of_flatten hz'.1, by simp [optB, hz'.2]⟩
-  · left
-    have hz' : os'.flatten ++ nd' ≠ [] := by rw [← h]; exact hz
-    constructor
-    · intro hc
-      apply hz
-      have := congrArg List.flatten hc
-      simpa [nonEmpty_flatten, optB_toList_flatten] using this
-    · intro hc
-      apply hz'
-      have := congrArg List.flatten hc
-      simpa [nonEmpty_flatten, optB_toList_flatten] using this
-
-/-- **Two runs of a plain chain on the same stream agree** when no call fails and every stage is safe on the pieces
-it receives in each of the two runs. -/
-theorem runG_stream : ∀ (items : List (Stage D E)) (ps : List Bytes) (fin : Option Bytes) (ps' : List Bytes)
-    (fin' : Option Bytes) (out out' : Bytes), AllPlain items →
-    ps.flatten ++ fin.getD [] = ps'.flatten ++ fin'.getD [] → SameShape ps fin ps' fin' →
-    SafeG tk ev codec items ps fin → SafeG tk ev codec items ps' fin' →
+/-- **Two runs of a plain chain of fresh stages on the same stream agree** when no call fails. -/
+theorem runG_stream (hl : LosslessS tk) (hr : RestartLaw tk) : ∀ (items : List (Stage D E)) (ps : List Bytes)
+    (fin : Option Bytes) (ps' : List Bytes) (fin' : Option Bytes) (out out' : Bytes), AllPlain items →
+    (∀ st ∈ items, StageInit tk st) →
+    ps.flatten ++ fin.getD [] = ps'.flatten ++ fin'.getD [] →
     runG tk ev codec items ps fin = some out → runG tk ev codec items ps' fin' = some out' → out = out'
-  | [], ps, fin, ps', fin', out, out', _, hs, _, _, _, h, h' => by
+  | [], ps, fin, ps', fin', out, out', _, _, hs, h, h' => by
     rw [runG_nil] at h h'
     injection h with h; injection h' with h'
     rw [← h, ← h', hs]
-  | st :: rest, ps, fin, ps', fin', out, out', hp, hs, hsh, hsafe, hsafe', h, h' => by
-    rcases hsh with ⟨hne, hne'⟩ | ⟨rfl, rfl, rfl, rfl⟩
-    · rw [runG_cons] at h h'
-      obtain ⟨sf, sg⟩ := hsafe
-      obtain ⟨sf', sg'⟩ := hsafe'
-      cases hfe : stFeed tk ev codec st ps with
-      | none => simp [hfe] at h
-      | some r =>
-        obtain ⟨st1, os⟩ := r
-        cases hfe' : stFeed tk ev codec st ps' with
-        | none => simp [hfe'] at h'
-        | some r' =>
-          obtain ⟨st1', os'⟩ := r'
-          simp only [hfe] at h sg
-          simp only [hfe'] at h' sg'
-          cases hw : st1.endWith tk ev codec fin with
-          | mk st2 x =>
-            cases x with
-            | none => simp [hw] at h
-            | some nd =>
-              cases hw' : st1'.endWith tk ev codec fin' with
-              | mk st2' x' =>
-                cases x' with
-                | none => simp [hw'] at h'
-                | some nd' =>
-                  simp only [hw] at h sg
-                  simp only [hw'] at h' sg'
-                  -- the stage's total output is the same in both runs
-                  have t1 : stTotal tk ev codec st ps fin = some (os.flatten ++ nd) := by
-                    simp [stTotal, hfe, hw]
-                  have t2 : stTotal tk ev codec st ps' fin' = some (os'.flatten ++ nd') := by
-                    simp [stTotal, hfe', hw']
-                  have c1 := stage_sci tk ev codec st (hp st (by simp)) ps fin hne sf _ t1
-                  have c2 := stage_sci tk ev codec st (hp st (by simp)) ps' fin' hne' sf' _ t2
-                  rw [hs] at c1
-                  rw [c1] at c2
-                  injection c2 with c2
-                  exact runG_stream rest (nonEmpty os) (optB nd) (nonEmpty os') (optB nd') out out'
-                    (fun s hs' => hp s (by simp [hs']))
-                    (by rw [nonEmpty_flatten, nonEmpty_flatten, optB_getD, optB_getD]; exact c2)
-                    (sameShape_next os os' nd nd' c2) sg sg' h h'
-    · rw [h] at h'
-      injection h'
-
-/-! ### the Boolean the driver evaluates -/
-
-def stageSafeB : Stage D E → List Bytes → Bool
-  | .html s, pieces => safeRunB tk ev s pieces
-  | _, _ => true
-
-def safeGB : List (Stage D E) → List Bytes → Option Bytes → Bool
-  | [], _, _ => true
-  | st :: rest, ps, fin =>
-    stageSafeB tk ev st (ps ++ fin.toList) &&
-      match stFeed tk ev codec st ps with
-      | none => true
-      | some (st1, os) =>
-        match st1.endWith tk ev codec fin with
-        | (_, none) => true
-        | (_, some nd) => safeGB rest (nonEmpty os) (optB nd)
-
-theorem safeGB_sound : ∀ (items : List (Stage D E)) (ps : List Bytes) (fin : Option Bytes),
-    safeGB tk ev codec items ps fin = true → SafeG tk ev codec items ps fin
-  | [], _, _, _ => trivial
-  | st :: rest, ps, fin, h => by
-    simp only [safeGB, Bool.and_eq_true] at h
-    refine ⟨?_, ?_⟩
-    · cases st with
-      | html s => exact safeRunB_sound tk ev _ s h.1
-      | text s => trivial
-      | decode d => trivial
-      | encode e => trivial
-    · cases hfe : stFeed tk ev codec st ps with
-      | none => trivial
-      | some r =>
-        obtain ⟨st1, os⟩ := r
-        have h2 := h.2
-        simp only [hfe] at h2 ⊢
+  | st :: rest, ps, fin, ps', fin', out, out', hp, hinit, hs, h, h' => by
+    rw [runG_cons] at h h'
+    cases hfe : stFeed tk ev codec st ps with
+    | none => simp [hfe] at h
+    | some r =>
+      obtain ⟨st1, os⟩ := r
+      cases hfe' : stFeed tk ev codec st ps' with
+      | none => simp [hfe'] at h'
+      | some r' =>
+        obtain ⟨st1', os'⟩ := r'
+        simp only [hfe] at h
+        simp only [hfe'] at h'
         cases hw : st1.endWith tk ev codec fin with
         | mk st2 x =>
           cases x with
-          | none => trivial
+          | none => simp [hw] at h
           | some nd =>
-            simp only [hw] at h2 ⊢
-            exact safeGB_sound rest _ _ h2
+            cases hw' : st1'.endWith tk ev codec fin' with
+            | mk st2' x' =>
+              cases x' with
+              | none => simp [hw'] at h'
+              | some nd' =>
+                simp only [hw] at h
+                simp only [hw'] at h'
+                -- the stage's total output is the same in both runs
+                have t1 : stTotal tk ev codec st ps fin = some (os.flatten ++ nd) := by
+                  simp [stTotal, hfe, hw]
+                have t2 : stTotal tk ev codec st ps' fin' = some (os'.flatten ++ nd') := by
+                  simp [stTotal, hfe', hw']
+                have c1 := stage_sci tk ev codec hl hr st (hp st (by simp)) (hinit st (by simp)) ps fin _ t1
+                have c2 := stage_sci tk ev codec hl hr st (hp st (by simp)) (hinit st (by simp)) ps' fin' _ t2
+                rw [hs] at c1
+                rw [c1] at c2
+                injection c2 with c2
+                exact runG_stream hl hr rest (nonEmpty os) (optB nd) (nonEmpty os') (optB nd') out out'
+                  (fun s hs' => hp s (by simp [hs'])) (fun s hs' => hinit s (by simp [hs']))
+                  (by rw [nonEmpty_flatten, nonEmpty_flatten, optB_getD, optB_getD]; exact c2) h h'
 
 end Rio.Filter
